@@ -86,8 +86,9 @@ CLAIMED.update({
          'sequence 0 never started) is judged on the implementation by the Lean monitor and carried by the lock-step correspondence, not proved over '
          'executions of the re-entrant commander. The automatic start (start_applications), the application-level order, the sequence-0 clause, the STOP '
          'strategy (made concrete: the application must be asked to stop once in-flight starts end), instance losses, re-joins and process removals are generated '
-         'and judged. Known finding: stop-strategy-dropped-with-job (same root cause as C10:start-request-untracked; kernel-checked witness). Defects repaired: '
-         '85ee815 (time-out applies the failure strategy), c24ff19. ' + CMD_TRUST,
+         'and judged. No known finding left: stop-strategy-dropped-with-job (same root cause as C10:start-request-untracked) was repaired by 437c842 - its kernel-checked '
+         'witnesses now show the stop being requested (C03_stop_strategy_witness, _witness_late). Defects repaired: '
+         '85ee815 (time-out applies the failure strategy), c24ff19, 437c842 (a job is not complete while one of its groups is being processed). ' + CMD_TRUST,
     technique='Lean 4 proofs on the commander decision functions + lock-step correspondence + Lean monitor on implementation traces',
     design='7 (C03)'),
  'C04': dict(
@@ -132,7 +133,7 @@ CLAIMED.update({
          'is what keeps a request from waiting for ever). ' + CMD_TIE + ' A free-running closed loop of real instances with fake Supervisors '
          '(harness/c16free.py) ends every schedule with a quiet phase and judges on the real objects that no Starter / Stopper job is still in progress.',
     note='Partial: that every request in flight is actually submitted to those decisions at each periodic check is carried by the correspondence and '
-         'judged by the monitor (known finding: start-request-untracked - a job dropped by a re-entrant Commander.next leaves requests unfollowed); '
+         'judged by the monitor (the former known finding start-request-untracked - a job dropped by a re-entrant Commander.next while its group was processed left requests unfollowed - was repaired by 437c842: C10_processing_job_in_progress); '
          'the loss of one or two target instances at any point of a job, re-joins and process removals are generated; one known finding on losses (lost-start-not-reported-'
          'fatal); lost-stop-still-listed and the free-running stopping-entry-of-lost-instance (root cause C11 lose-while-only-stopping) were repaired by a0ba3bf; '
          'defects repaired: c24ff19 (a request whose process was removed from the target raised at every tick and stopped the TICK), 36715a1 (planned commands of a '
